@@ -256,6 +256,9 @@ class FloatRange(HasUnit, DataType):
             except Exception:
                 raise WrongTypeError(f'can not convert {shortrepr(value)} to a float') from None
 
+        if value != value:
+            # can not be transported (JSON) and has no place in a range
+            raise RangeError('nan (not a number) is not a valid value')
         # map +/-infty to +/-max possible number
         return clamp(-sys.float_info.max, value, sys.float_info.max)
 
